@@ -649,6 +649,9 @@ LockDiscipline == /\ (L.owner = None) = (L.n = 0)
                   /\ AllDone => (L.n = 0 /\ OL.n = 0 /\ \A x \in AllMods : ML[x] = None)
 Termination2 == <>AllDone
 
+\* the event history multiplies states without adding behaviour: larger instances hide it with this VIEW
+NoHist == << pc, L, OL, ML, mod, execs, reg, built, cache, optpub, obs, stack, m, todo, dep, pm, gm, xm, op >>
+
 \* for the replay harness: every complete behaviour's hook-event order, and every deadlocked one
 Stuck == (\E t \in Threads : pc[t] # "Done") /\ (\A t \in Threads : pc[t] = "Done" \/ Blocked(t))
 EmitDone == AllDone => PrintT(<<"H", hist>>)
